@@ -56,26 +56,57 @@ def _parents(n):
         p = getattr(p, '_parent', None)
 
 
-def check_expand_tasks(A, R: Report, rid: str):
-    fex = A.func('Chain._expand_tasks')
-    appends = [n for n in A.typer.own_nodes(fex) if isinstance(n, ast.Call) and isinstance(n.func, ast.Attribute) and n.func.attr == 'append' and src(n.args[0]) == 'task_name']
-    cfg = A.cfg(fex)
-    ns_ok = False
-    fm_ok = False
-    for a in appends:
-        for cn in cfg_nodes_for(cfg, a):
-            texts = []
-            for x, pol in cfg.facts_at(cn.id):
-                e = subst_single_assign(A, fex, x)
-                texts.append((src(e), pol))
-            for t, pol in texts:
-                if pol and "split('::')[:-1]" in t and '==' in t:
-                    ns_ok = True
-                if pol and t.startswith('re.fullmatch(') and "split('::')[-1]" in t:
-                    fm_ok = True
-    R.check(ns_ok and fm_ok, rid, 'Chain._expand_tasks', key_of('pattern', ns_ok, fm_ok), 'namespace compared segment-wise, name matched with fullmatch on the last segment',
-            'pattern inputs are not restricted to the own namespace segment-wise / not matched with fullmatch: a pattern can pull in tasks of other namespaces or partial names', where=where(fex))
+def _split_derived(A, f, expr, which):
+    """expr denotes the namespace segments (`which`='ns') or the last segment ('last') of a name split on '::'."""
+    e = subst_single_assign(A, f, expr)
+    t = src(e)
+    if which == 'ns' and "split('::')[:-1]" in t:
+        return True
+    if which == 'last' and "split('::')[-1]" in t:
+        return True
+    if isinstance(e, ast.Name):
+        # star-unpacking:  *namespace, last = name.split('::')
+        for n in A.typer.own_nodes(f):
+            if isinstance(n, ast.Assign) and isinstance(n.targets[0], ast.Tuple) and "split('::')" in src(n.value) and len(n.targets[0].elts) == 2:
+                a, b = n.targets[0].elts
+                if which == 'ns' and isinstance(a, ast.Starred) and src(a.value) == e.id:
+                    return True
+                if which == 'last' and isinstance(a, ast.Starred) and src(b) == e.id:
+                    return True
+            if isinstance(n, ast.Assign) and len(n.targets) == 1 and src(n.targets[0]) == e.id and 'rsplit' in src(n.value) or (isinstance(n, ast.Assign) and src(n.targets[0]) == e.id and 'rpartition' in src(n.value)):
+                return True
+    return False
 
+
+def check_expand_tasks(A, R: Report, rid: str):
+    """Every path on which a task name is added for a `~pattern` passes (a) a full match of the pattern against the last
+    `::` segment of the candidate and (b) either a segment-wise comparison of the namespaces or the `~~` test."""
+    fex = A.func('Chain._expand_tasks')
+    cfg = A.cfg(fex)
+    loops = [n for n in A.typer.own_nodes(fex) if isinstance(n, ast.For) and src(n.iter) == fex.params[1]]
+    appends = [n for lp in loops for n in ast.walk(lp) if isinstance(n, ast.Call) and isinstance(n.func, ast.Attribute) and n.func.attr in ('append', 'add') and n.args and src(n.args[0]) == src(lp.target)]
+    if not appends:
+        R.undecided(rid, 'Chain._expand_tasks', 'pattern expansion loop not recognised', where=where(fex))
+        return
+    ns_gates, fm_gates = [], []
+    for n in cfg.nodes.values():
+        if n.kind != 'edge' or n.label != 'T':
+            continue
+        a = n.ast
+        if isinstance(a, ast.Compare) and len(a.ops) == 1 and isinstance(a.ops[0], ast.Eq) and _split_derived(A, fex, a.left, 'ns') and _split_derived(A, fex, a.comparators[0], 'ns'):
+            ns_gates.append(n.id)
+        if isinstance(a, ast.Call) and isinstance(a.func, ast.Attribute) and a.func.attr == 'startswith' and a.args and isinstance(a.args[0], ast.Constant) and a.args[0].value == '~~':
+            ns_gates.append(n.id)
+        if isinstance(a, ast.Call) and src(a.func).endswith('fullmatch') and a.args and _split_derived(A, fex, a.args[-1], 'last'):
+            fm_gates.append(n.id)
+    heads = [n.id for n in cfg.nodes.values() if n.kind == 'for' and n.ast in loops]
+    app_nodes = [cn.id for a in appends for cn in cfg_nodes_for(cfg, a)]
+    p_ns = cfg.find_path(heads, app_nodes, avoid=ns_gates)
+    p_fm = cfg.find_path(heads, app_nodes, avoid=fm_gates)
+    ns_ok, fm_ok = bool(ns_gates) and p_ns is None, bool(fm_gates) and p_fm is None
+    R.check(ns_ok and fm_ok, rid, 'Chain._expand_tasks', key_of('pattern', ns_ok, fm_ok), 'namespace compared segment-wise, name matched with fullmatch on the last segment',
+            'pattern inputs are not restricted to the own namespace segment-wise / not matched with fullmatch: a pattern can pull in tasks of other namespaces or partial names',
+            witness=cfg.describe_path(p_ns or p_fm) if (p_ns or p_fm) else None, where=where(fex))
 
 
 def run(A, R: Report, thorough: bool):
